@@ -6,19 +6,144 @@ import (
 	"bytes"
 	"encoding/json"
 	"fmt"
+	"log/syslog"
+	"net"
 	"os"
 	"path/filepath"
 	"strconv"
+	"strings"
+	"sync"
+	"syscall"
 	"testing"
 	"time"
 	"unicode/utf8"
+
+	"github.com/gookit/color"
 )
 
 // C37: every structured log record is one line holding a JSON object that decodes to the
-// record's time, level and formatted message. The driver logs through the real Logger into
-// both structured destinations (stdout writer injected, file in a scratch dir), ships the raw
-// bytes of each line for the Coq parser, and parses each line with encoding/json and
-// time.Parse as independent oracles.
+// record's time, level and formatted message. The driver logs through real Loggers in EVERY
+// configuration destination (stdout writer injected / file in a scratch dir) x Structured x
+// destinationStdout.useColor (stdout is a terminal: obtained from the constructor with os.Stdout
+// swapped for a pty where the sandbox has one, else by setting the field) x gookit/color switched
+// on or off, ships the raw bytes of each line for the Coq parser, and parses each structured line
+// with encoding/json and time.Parse as independent oracles. Bursts of concurrent records go
+// through one Logger from several goroutines; the syslog destination writes to a log/syslog
+// Writer dialled to a unixgram socket of the driver.
+
+// vC37Cfg is one logger configuration; colorMode selects the process-global state of gookit/color.
+type vC37Cfg struct {
+	structured bool
+	useColor   bool
+	colorMode  int // 0: Enable=false; 1: Enable=true but no colour support; 2: 16 colours; 3: true colour
+}
+
+func vC37SetColor(mode int) bool {
+	switch mode {
+	case 0:
+		color.Enable = false
+		color.ForceSetColorLevel(color.Level16)
+	case 1:
+		color.Enable = true
+		color.ForceSetColorLevel(color.LevelNo)
+	case 2:
+		color.Enable = true
+		color.ForceSetColorLevel(color.Level16)
+	default:
+		color.Enable = true
+		color.ForceSetColorLevel(color.LevelRgb)
+	}
+	return color.Enable && color.SupportColor()
+}
+
+func vC37CfgCoq(dest int, structured, useColor, colorOn bool) string {
+	return cqApp("Config", cqZ(int64(dest)), cqBool(structured), cqBool(useColor), cqBool(colorOn))
+}
+
+func vC37Clock(t time.Time) string {
+	y, mo, d := t.Date()
+	h, mi, s := t.Clock()
+	return cqApp("Clock", cqZ(int64(y)), cqZ(int64(mo)), cqZ(int64(d)), cqZ(int64(h)), cqZ(int64(mi)), cqZ(int64(s)))
+}
+
+func vC37CfgName(dest int, structured, useColor, colorOn bool) string {
+	b := func(v bool) int {
+		if v {
+			return 1
+		}
+		return 0
+	}
+	return fmt.Sprintf("%s %s tty=%d color=%d", []string{"stdout", "file"}[dest], map[bool]string{true: "json", false: "plain"}[structured],
+		b(useColor), b(colorOn))
+}
+
+func vC37Coarse(cat string) string {
+	switch cat {
+	case "ascii-plain":
+		return "ascii"
+	case "invalid-utf8":
+		return "invalid-utf8"
+	}
+	return "escaping"
+}
+
+// vC37Logger is a real Logger with the stdout and the file destination plus the places its output goes to.
+type vC37Logger struct {
+	l       *Logger
+	stdout  *vC37Buf
+	path    string
+	fileOff int64
+}
+
+// vC37Buf is a bytes.Buffer that may be written by the Logger while other goroutines wait.
+type vC37Buf struct {
+	mu sync.Mutex
+	b  bytes.Buffer
+}
+
+func (b *vC37Buf) Write(p []byte) (int, error) {
+	b.mu.Lock()
+	defer b.mu.Unlock()
+	return b.b.Write(p)
+}
+
+func (b *vC37Buf) take() []byte {
+	b.mu.Lock()
+	defer b.mu.Unlock()
+	out := append([]byte{}, b.b.Bytes()...)
+	b.b.Reset()
+	return out
+}
+
+func (lg *vC37Logger) takeFile() []byte {
+	raw := []byte{}
+	if fb, err := os.ReadFile(lg.path); err == nil && int64(len(fb)) >= lg.fileOff {
+		raw = append(raw, fb[lg.fileOff:]...)
+		lg.fileOff = int64(len(fb))
+	}
+	if lg.fileOff > 1<<20 { // keep the scratch file small: the destination appends (O_APPEND)
+		os.Truncate(lg.path, 0)
+		lg.fileOff = 0
+	}
+	return raw
+}
+
+func vC37QuoteAll(xs []string) []string {
+	out := make([]string, len(xs))
+	for i, x := range xs {
+		out[i] = strconv.QuoteToASCII(x)
+	}
+	return out
+}
+
+// vC37OpenPty returns the master side of a new pseudo terminal (nil if the sandbox has none).
+func vC37OpenPty() *os.File {
+	f, err := os.OpenFile("/dev/ptmx", os.O_RDWR|syscall.O_NOCTTY, 0)
+	if err != nil {
+		return nil
+	}
+	return f
+}
 
 type vC37Rec struct {
 	t      time.Time
@@ -97,25 +222,60 @@ func TestVerifC37(t *testing.T) {
 	if dir == "" {
 		dir = t.TempDir()
 	}
-	logPath := filepath.Join(dir, fmt.Sprintf("c37-%d.log", os.Getpid()))
-	os.Remove(logPath)
-	defer os.Remove(logPath)
 
+	oldEnable, oldLevel, oldStdout := color.Enable, color.TermColorLevel(), os.Stdout
+	defer func() {
+		color.Enable = oldEnable
+		color.ForceSetColorLevel(oldLevel)
+		os.Stdout = oldStdout
+	}()
+
+	// one real Logger per (Structured, useColor); both have the stdout and the file destination.
+	// useColor = true comes out of newDestionationStdout itself when os.Stdout is a pty during Initialize.
 	var now time.Time
-	var stdout bytes.Buffer
-	l := &Logger{
-		Level:        0, // lets the out-of-range level 0 through as well
-		Destinations: []Destination{DestinationStdout, DestinationFile},
-		Structured:   true,
-		File:         logPath,
-		timeNow:      func() time.Time { return now },
-		stdout:       &stdout,
+	pty := vC37OpenPty()
+	if pty != nil {
+		defer pty.Close()
 	}
-	if err := l.Initialize(); err != nil {
-		t.Fatal(err)
+	ttySource := "field set by the driver (no pty in this sandbox)"
+	loggers := map[[2]bool]*vC37Logger{}
+	for _, structured := range []bool{true, false} {
+		for _, useColor := range []bool{false, true} {
+			lg := &vC37Logger{stdout: &vC37Buf{},
+				path: filepath.Join(dir, fmt.Sprintf("c37-%d-%v-%v.log", os.Getpid(), structured, useColor))}
+			os.Remove(lg.path)
+			defer os.Remove(lg.path)
+			lg.l = &Logger{
+				Level:        0, // lets the out-of-range level 0 through as well
+				Destinations: []Destination{DestinationStdout, DestinationFile},
+				Structured:   structured,
+				File:         lg.path,
+				timeNow:      func() time.Time { return now },
+				stdout:       lg.stdout,
+			}
+			if useColor && pty != nil {
+				os.Stdout = pty
+			}
+			err := lg.l.Initialize()
+			os.Stdout = oldStdout
+			if err != nil {
+				t.Fatal(err)
+			}
+			defer lg.l.Close()
+			d := lg.l.destinations[0].(*destinationStdout)
+			if useColor && d.useColor {
+				ttySource = "newDestionationStdout with os.Stdout = pty"
+			}
+			if !useColor && d.useColor {
+				t.Fatalf("go test's stdout is a terminal: run the check with stdout redirected")
+			}
+			d.useColor = useColor
+			loggers[[2]bool{structured, useColor}] = lg
+		}
 	}
-	defer l.Close()
-	fileOff := int64(0)
+	out.extra["use_color_source"] = ttySource
+	cfgCount := map[string]int{}
+	catCount := map[string]int{}
 
 	zones := []*time.Location{time.UTC, time.FixedZone("", 5*3600+1800), time.FixedZone("", -8*3600),
 		time.FixedZone("", 14*3600), time.FixedZone("", -12*3600), time.Local, time.FixedZone("X", 0)}
@@ -145,24 +305,20 @@ func TestVerifC37(t *testing.T) {
 		return tt.In(vPick(r, zones))
 	}
 
-	emit := func(rec vC37Rec) {
+	emit := func(rec vC37Rec, cfg vC37Cfg) {
 		now = rec.t
-		stdout.Reset()
-		l.Log(rec.level, rec.format, rec.args...)
+		lg := loggers[[2]bool{cfg.structured, cfg.useColor}]
+		lg.stdout.take()
+		colorOn := vC37SetColor(cfg.colorMode)
+		lg.l.Log(rec.level, rec.format, rec.args...)
 		msg := []byte(fmt.Sprintf(rec.format, rec.args...))
-		fileRaw := []byte{}
-		if fb, err := os.ReadFile(logPath); err == nil && int64(len(fb)) >= fileOff {
-			fileRaw = append(fileRaw, fb[fileOff:]...)
-			fileOff = int64(len(fb))
-		}
-		if fileOff > 1<<20 { // keep the scratch file small: the destination appends (O_APPEND)
-			os.Truncate(logPath, 0)
-			fileOff = 0
-		}
+		stdoutRaw := lg.stdout.take()
+		fileRaw := lg.takeFile()
 		ts := rec.t.Format(time.RFC3339Nano)
 		sanitized := string([]rune(string(msg)))
 		cat, nontrivial := vC37Category(msg)
-		for dest, raw := range [][]byte{append([]byte{}, stdout.Bytes()...), fileRaw} {
+		catCount[cat]++
+		for dest, raw := range [][]byte{stdoutRaw, fileRaw} {
 			var m map[string]string
 			goOK := json.Unmarshal(raw, &m) == nil && len(m) == 3
 			tsOK := false
@@ -174,18 +330,36 @@ func TestVerifC37(t *testing.T) {
 					tsOK = true
 				}
 			}
+			cfgName := vC37CfgName(dest, cfg.structured, cfg.useColor, colorOn)
+			cfgCount[cfgName]++
 			desc := map[string]any{
-				"dest": []string{"stdout", "file"}[dest], "time": ts, "level": int(rec.level), "format": rec.format,
+				"dest": []string{"stdout", "file"}[dest], "structured": cfg.structured, "use_color": cfg.useColor,
+				"color_mode": cfg.colorMode, "color_on": colorOn,
+				"time": ts, "level": int(rec.level), "format": rec.format,
 				"message": strconv.QuoteToASCII(string(msg)), "line": strconv.QuoteToASCII(string(raw)),
-				"kind": rec.kind, "go_json_ok": goOK, "go_time_ok": tsOK,
+				"kind": rec.kind, "category": cat, "go_json_ok": goOK, "go_time_ok": tsOK,
 			}
 			if goOK {
 				desc["go_message"] = strconv.QuoteToASCII(m["message"])
+				desc["go_level"] = strconv.QuoteToASCII(m["level"])
 			}
-			out.Case(cqApp("Line", cqZ(int64(dest)), cqBytes(ts), cqBool(tsOK), cqZ(int64(rec.level)), cqBytes(msg),
+			out.Case(cqApp("Line", vC37CfgCoq(dest, cfg.structured, cfg.useColor, colorOn), vC37Clock(rec.t),
+				cqBytes(ts), cqBool(tsOK), cqZ(int64(rec.level)), cqBytes(msg),
 				cqBytes(raw), cqBool(goOK), cqBytes(m["timestamp"]), cqBytes(m["level"]), cqBytes(m["message"]),
-				cqBytes(sanitized)), desc, cat, nontrivial)
+				cqBytes(sanitized)), desc, cfgName+" "+vC37Coarse(cat), nontrivial || (cfg.useColor && colorOn))
 		}
+	}
+	// configurations: three quarters structured; every (useColor, colour state) combination in both
+	cfgSeq := 0
+	nextCfg := func() vC37Cfg {
+		cfgSeq++
+		c := vC37Cfg{structured: cfgSeq%4 != 0, useColor: r.Bool()}
+		if r.Bool() {
+			c.colorMode = 2 + r.Intn(2)
+		} else {
+			c.colorMode = r.Intn(2)
+		}
+		return c
 	}
 	quoteCases := 0
 	emitQuote := func(msg []byte) {
@@ -218,7 +392,7 @@ func TestVerifC37(t *testing.T) {
 		default:
 			rec.format, rec.args = "%s", []any{s}
 		}
-		emit(rec)
+		emit(rec, nextCfg())
 	}
 
 	// 1. every single byte, embedded in context (exhaustive in every tier)
@@ -232,7 +406,9 @@ func TestVerifC37(t *testing.T) {
 		default:
 			msg = []byte{'a', byte(b)}
 		}
-		emit(vC37Rec{t: time.Date(2003, 11, 4, 23, 15, 8, 431232, time.UTC), level: Info, format: "%s", args: []any{string(msg)}, kind: "single-byte"})
+		// structured, walking through the four (useColor, colour on) combinations and the four levels
+		emit(vC37Rec{t: time.Date(2003, 11, 4, 23, 15, 8, 431232, time.UTC), level: Level(1 + (b/4)%4), format: "%s", args: []any{string(msg)}, kind: "single-byte"},
+			vC37Cfg{structured: true, useColor: b&1 == 1, colorMode: []int{0, 2, 1, 3}[(b>>1)&3]})
 		emitQuote(msg)
 		if thorough {
 			for _, m := range [][]byte{{byte(b)}, {'a', byte(b), 'z'}, {byte(b), byte(b)}, {0xe2, byte(b), 0x80}} {
@@ -318,5 +494,225 @@ func TestVerifC37(t *testing.T) {
 			emitQuote(msg)
 		}
 	}
+
+	// 5. bursts: several goroutines log through ONE structured Logger at the same time (Logger.Log serialises
+	// them under its mutex); everything each destination wrote must split into one JSON line per record
+	hostile := []string{"", "\n", "\r\n", "\"", "\\", "}\n{", "\x00", "\x1b[31m", "\xff", "\xe2\x80\xa8", "\xf0\x9f\x98\x80", "<&>", "\t", "\xe2\x82", "%"}
+	nBursts := 2
+	if thorough {
+		nBursts = 24
+	}
+	// probes: further bursts judged by encoding/json in the driver and shipped only when it finds a damaged output
+	// (keeps the cases files small; a shipped probe is judged by Coq like every other burst)
+	nProbes, probesShipped := 12, 0
+	if thorough {
+		nProbes = 200
+	}
+	for bi := 0; bi < nBursts+nProbes; bi++ {
+		probe := bi >= nBursts
+		cfg := vC37Cfg{structured: true, useColor: bi%2 == 0, colorMode: []int{2, 0, 3, 1}[bi%4]}
+		if bi >= 4 {
+			cfg.useColor = r.Bool()
+		}
+		lg := loggers[[2]bool{true, cfg.useColor}]
+		colorOn := vC37SetColor(cfg.colorMode)
+		now = randTime()
+		lvl := vPick(r, levels)
+		nG, perG := 8, 3
+		if probe {
+			nG, perG = 8, 12
+		}
+		msgs := make([]string, nG*perG)
+		for i := range msgs {
+			body := ""
+			for k := 0; k < 1+r.Intn(4); k++ {
+				body += vPick(r, hostile) + vPick(r, []string{"cam", "closing", "[conn 1.2.3.4:5]", "x"})
+			}
+			if i == 7 {
+				body += strings.Repeat("y", 150+r.Intn(150))
+			}
+			msgs[i] = fmt.Sprintf("g%d-r%d %s", i/perG, i%perG, body)
+		}
+		lg.stdout.take()
+		lg.takeFile()
+		var wg sync.WaitGroup
+		var panics sync.Map
+		start := make(chan struct{})
+		for g := 0; g < nG; g++ {
+			wg.Add(1)
+			go func(g int) {
+				defer wg.Done()
+				defer func() { // unsynchronised destinations may also crash: that is a failed burst, not a failed driver
+					if p := recover(); p != nil {
+						panics.Store(g, fmt.Sprint(p))
+					}
+				}()
+				<-start
+				for k := 0; k < perG; k++ {
+					lg.l.Log(lvl, "%s", msgs[g*perG+k])
+				}
+			}(g)
+		}
+		close(start)
+		wg.Wait()
+		index := map[string]int{}
+		for i, m := range msgs {
+			index[string([]rune(m))] = i
+		}
+		ts := now.Format(time.RFC3339Nano)
+		panicked := []string{}
+		panics.Range(func(_, v any) bool { panicked = append(panicked, v.(string)); return true })
+		for dest, raw := range [][]byte{lg.stdout.take(), lg.takeFile()} {
+			goOK := len(panicked) == 0
+			var perm []int64
+			for _, ln := range bytes.SplitAfter(raw, []byte{'\n'}) {
+				if len(ln) == 0 {
+					continue
+				}
+				var m map[string]string
+				if json.Unmarshal(ln, &m) != nil || len(m) != 3 {
+					goOK = false
+					perm = append(perm, -1)
+					continue
+				}
+				if i, ok := index[m["message"]]; ok {
+					perm = append(perm, int64(i))
+				} else {
+					perm = append(perm, -1)
+				}
+			}
+			if probe {
+				seen := map[int64]bool{}
+				for _, i := range perm {
+					if i >= 0 {
+						seen[i] = true
+					}
+				}
+				if goOK && len(perm) == len(msgs) && len(seen) == len(msgs) {
+					continue
+				}
+				probesShipped++
+			}
+			cfgName := vC37CfgName(dest, true, cfg.useColor, colorOn)
+			cfgCount["burst "+cfgName]++
+			out.Case(cqApp("Burst", vC37CfgCoq(dest, true, cfg.useColor, colorOn), cqBytes(ts), vC37Clock(now), cqZ(int64(lvl)),
+				cqListOf(msgs, func(m string) string { return cqBytes(m) }), cqListOf(perm, cqZ), cqBytes(raw), cqBool(goOK)),
+				map[string]any{"kind": "burst", "dest": []string{"stdout", "file"}[dest], "use_color": cfg.useColor, "color_on": colorOn,
+					"goroutines": nG, "records": len(msgs), "level": int(lvl), "time": ts, "go_json_ok": goOK, "order": perm, "panics": panicked,
+					"messages": vC37QuoteAll(msgs), "output": strconv.QuoteToASCII(string(raw))},
+				"burst "+cfgName, true)
+		}
+	}
+
+	// 6. the syslog destination (never structured): destinationSysLog.log through Logger.Log on a log/syslog Writer
+	// dialled to a unixgram socket of the driver (newDestinationSyslog needs the system's /dev/log)
+	sysDir, err := os.MkdirTemp("/tmp", "vc37-")
+	if err != nil {
+		t.Fatal(err)
+	}
+	defer os.RemoveAll(sysDir)
+	sock := filepath.Join(sysDir, "log.sock")
+	conn, err := net.ListenUnixgram("unixgram", &net.UnixAddr{Name: sock, Net: "unixgram"})
+	if err != nil {
+		t.Fatal(err)
+	}
+	defer conn.Close()
+	const sysTag = "mediamtx-verif"
+	sw, err := syslog.Dial("unixgram", sock, syslog.LOG_DAEMON, sysTag)
+	if err != nil {
+		t.Fatal(err)
+	}
+	sysDest := &destinationSysLog{syslog: sw}
+	sysLogger := &Logger{Level: 0, timeNow: func() time.Time { return now }, destinations: []destination{sysDest}}
+	defer sysLogger.Close()
+	sysHeader := fmt.Sprintf("%s[%d]: ", sysTag, os.Getpid())
+	dgram := make([]byte, 1<<17)
+	readDgram := func() (int, []byte, bool) { // severity, text after the header
+		conn.SetReadDeadline(time.Now().Add(5 * time.Second))
+		k, _, err := conn.ReadFromUnix(dgram)
+		if err != nil {
+			return 0, nil, false
+		}
+		d := dgram[:k]
+		end := bytes.IndexByte(d, '>')
+		at := bytes.Index(d, []byte(sysHeader))
+		if len(d) == 0 || d[0] != '<' || end < 0 || at < 0 {
+			return 0, nil, false
+		}
+		pri, err := strconv.Atoi(string(d[1:end]))
+		if err != nil {
+			return 0, nil, false
+		}
+		return pri, append([]byte{}, d[at+len(sysHeader):]...), true
+	}
+	sysSeq := 0
+	emitSys := func(lvl Level, format string, args ...any) {
+		now = randTime()
+		vC37SetColor(r.Intn(4))
+		sysLogger.Log(lvl, format, args...)
+		sysSeq++
+		sentinel := fmt.Sprintf("verif-c37-sentinel-%d", sysSeq)
+		sysDest.log(now, Info, "%s", sentinel)
+		msg := []byte(fmt.Sprintf(format, args...))
+		got := cqOpt(false, "")
+		gotDesc := any(nil)
+		for {
+			pri, text, ok := readDgram()
+			if !ok {
+				t.Fatalf("C37 syslog: sentinel %q did not arrive", sentinel)
+			}
+			if string(text) == sentinel+"\n" {
+				break
+			}
+			if pri&^7 != int(syslog.LOG_DAEMON) {
+				t.Fatalf("C37 syslog: facility of priority %d is not the dialled one", pri)
+			}
+			got = cqOpt(true, cqPair(cqZ(int64(pri&7)), cqBytes(text)))
+			gotDesc = map[string]any{"severity": pri & 7, "text": strconv.QuoteToASCII(string(text))}
+		}
+		cfgCount["syslog"]++
+		out.Case(cqApp("Sys", cqZ(int64(lvl)), cqBytes(msg), got),
+			map[string]any{"kind": "syslog", "level": int(lvl), "format": format, "message": strconv.QuoteToASCII(string(msg)), "got": gotDesc},
+			"syslog", true)
+	}
+	nSys := 40
+	if thorough {
+		nSys = 600
+	}
+	for _, lvl := range []Level{Debug, Info, Warn, Error, 0, 5} {
+		emitSys(lvl, "test format %d", 123)
+	}
+	for i := 0; i < nSys; i++ {
+		lvl := vPick(r, levels)
+		if r.Chance(1, 20) {
+			lvl = Level([]int{0, 5, 99}[r.Intn(3)])
+		}
+		var msg string
+		switch r.Intn(4) {
+		case 0:
+			msg = vPick(r, corpus)
+		case 1:
+			for k := 0; k < 1+r.Intn(6); k++ {
+				msg += vPick(r, words)
+			}
+		case 2:
+			msg = vPick(r, words) + "\n"
+		default:
+			bs := make([]byte, r.Intn(300))
+			for k := range bs {
+				bs[k] = byte(r.Intn(256))
+			}
+			msg = string(bs)
+		}
+		if r.Bool() {
+			emitSys(lvl, "%s", msg)
+		} else {
+			emitSys(lvl, "[path %s] %s", "cam1", msg)
+		}
+	}
+
 	out.extra["strconv_quote_cases"] = quoteCases
+	out.extra["burst_probes"] = map[string]int{"run": nProbes, "shipped_because_damaged": probesShipped}
+	out.extra["configurations"] = cfgCount
+	out.extra["message_categories"] = catCount
 }
